@@ -10,6 +10,7 @@ import (
 	"verifharness/lib"
 	"verifharness/props/c01"
 	"verifharness/props/c06"
+	"verifharness/props/c12"
 	"verifharness/props/c15"
 	"verifharness/props/c16"
 	"verifharness/props/c17"
@@ -19,6 +20,7 @@ import (
 var table = map[string]func(lib.Opts){
 	"C01": c01.Run,
 	"C06": c06.Run,
+	"C12": c12.Run,
 	"C15": c15.Run,
 	"C16": c16.Run,
 	"C17": c17.Run,
